@@ -139,10 +139,11 @@ class _fill:
 
 def _afill_cfgs():
     return [{"c": c, "dtype": dt, "wk": wk} for c in (0, 1, 2) for dt in ("int64",) for wk in ("default", "float")] + \
-           [{"c": 1, "dtype": "float64", "wk": "int"}]
+           [{"c": 1, "dtype": "float64", "wk": "int"}] + \
+           [{"c": c, "dtype": "int64", "wk": "default", "warm": True} for c in (0, 1, 2)] + [{"c": 1, "dtype": "int32", "wk": "default"}]
 
 
-@contract(K + ".fill", props=["C04", "C03", "C18"], name=K + ".fill[adaptive]")
+@contract(K + ".fill", props=["C04", "C03", "C18", "C13", "C16"], name=K + ".fill[adaptive]")
 class _fill_adaptive:
     bounded = True
     bound_note = "adaptive fill: initial bin count <= 2, growth by at most 4 bins per call; width, origin, value symbolic"
@@ -151,6 +152,8 @@ class _fill_adaptive:
 
     def inputs(b):
         binning = fixed_width(b, "B", count=b.cfg.c, adaptive=True)
+        if getattr(b.cfg, "warm", False):       # the bins have been looked at before the fill
+            warm(b, binning)
         kw = dict(self=hist1d(b, "h", binning, b.cfg.c, dtype=b.cfg.dtype), value=b.real("v"))
         w = weight_of(b)
         if w is not None:
@@ -195,6 +198,10 @@ class _fill_adaptive:
         ob, nb = attr(old.self, "_binnings")[0], attr(a.self, "_binnings")[0]
         return And(attr(nb, "_bin_width") == attr(ob, "_bin_width"), attr(nb, "_shift") == attr(ob, "_shift"),
                    attr(nb, "_bin_count") == len(elems(attr(a.self, "_frequencies"))))
+
+    @ensures("the_histogram_stays_well_formed_contents_errors_dtype_and_every_view_of_the_bins_agree")
+    def _(a, old, result):
+        return well_formed(a.self)
 
 
 # ---------------------------------------------------------------------------------------------- fill_n
